@@ -163,6 +163,20 @@ func (w *gzipResponseWriter) Write(b []byte) (int, error) {
 	return n, err
 }
 
+// Flush implements http.Flusher. If the handler flushes before the header
+// has been written, the header is committed through this writer first so
+// that Content-Encoding (and the removal of Content-Length) reach the
+// client; the data buffered in the gzip writer is then flushed as well.
+func (w *gzipResponseWriter) Flush() {
+	if !w.statusCodeWritten {
+		w.WriteHeader(http.StatusOK)
+	}
+	if gzWriter, ok := w.internalWriter.(*gzip.Writer); ok {
+		gzWriter.Flush()
+	}
+	w.ResponseWriterWrapper.Flush()
+}
+
 //Writer use a lazy way to initialize Writer
 func (w *gzipResponseWriter) Writer() io.Writer {
 	if w.internalWriter == nil {
